@@ -55,13 +55,14 @@ OpsTtl ==       \* short TTL + tick (sleep): kept small, every tick costs wall t
   {[op |-> "put_ttl", k |-> k, v |-> "v2", ttl |-> "short"] : k \in Keys}
   \cup {[op |-> "tick"]} \cup {PutL(K1, "v1", Low), Put(K1, "v1"), Get(K1), Prom(K1, Low, 0)}
 
-OpsValid ==     \* validation hooks, corruption of disk files
-  {[op |-> "put_val", k |-> K1, v |-> v, ck |-> c] : v \in Vals, c \in Vals}
+OpsValid ==     \* validation hooks, corruption / truncation of disk files, the empty value
+  {[op |-> "put_val", k |-> K1, v |-> q[1], ck |-> q[2]] : q \in {<<"v1", "v1">>, <<"v1", "v2">>, <<"v2", "v1">>, <<Nil, "v1">>}}
   \cup {[op |-> "get_val", k |-> K1, ck |-> c] : c \in Vals \cup {None}}
-  \cup {PutL(K1, v, Low) : v \in Vals} \cup {PutL(K1, "v1", 0), [op |-> "corrupt", k |-> K1], Get(K1)}
+  \cup {PutL(K1, v, Low) : v \in Vals} \cup {PutL(K1, "v1", 0), Get(K1)}
+  \cup {[op |-> f, k |-> K1] : f \in {"corrupt", "trunc0"}}
 
-OpsFault ==     \* deletion / corruption of the disk layer's files under every reader
-  {[op |-> f, k |-> k] : f \in {"corrupt", "delete"}, k \in Keys}
+OpsFault ==     \* deletion / corruption / change of length of the disk layer's files under every reader
+  {[op |-> f, k |-> "a"] : f \in FaultOps} \cup {[op |-> f, k |-> "b"] : f \in {"corrupt", "delete"}}
   \cup {PutL(k, "v1", Low) : k \in Keys} \cup {Put("a", "v2")}
   \cup {Get(k) : k \in Keys} \cup {GetL("a", Low), Prom("a", Low, 0), Rem("a")}
   \cup {[op |-> "get_val", k |-> "a", ck |-> "v1"], [op |-> "batch_get", ks |-> <<"a", "b">>]}
